@@ -107,7 +107,7 @@ def probe_worker_counts():
 def mk(k, v, w, reps, busy, exact, family, seed=None):
     line = "vec.pardot %s %s %d %d" % (tok_vec('f64', v), tok_vec('f64', w), reps, busy)
     # pin to the first k CPUs of the mask actually available (never assume 16, nor that they are numbered 0..)
-    meta = {"_env": {"taskset": ",".join(str(c) for c in CPUS[:k])}, "k": k, "v": v, "w": w, "reps": reps, "exact": exact}
+    meta = {"_env": {"taskset": ",".join(str(c) for c in CPUS[:k])}, "k": k, "v": v, "w": w, "reps": reps, "busy": busy, "exact": exact}
     meta["t"] = OBSERVED.get(k, k)
     if seed is not None:
         meta["seed"] = seed
